@@ -510,6 +510,18 @@ def run(chk, repo):
     # on every return path that raises numpoly / denpoly to `other`, the guards must exclude
     # "other < 0 and that polynomial has two or more terms"
     _dispatch(chk, repo, mod, W)
+    # the algebra is about what the filters do to signals: the call that realises it must compute the difference
+    # equation of the two polynomials (shared engine with C04: folded kernels checked in rational normal form)
+    chk.rule("C05.kernel", "LinearFilter.__call__ of a filter with polynomials B / A computes a0*y[n] = sum b_k x[n-k] - sum "
+                           "a_k y[n-k] for every folded kernel (coefficients pasted as numbers, fractions P/Q, negative "
+                           "numbers, floats): without this (f/g)(x), (f*g)(x) = f(g(x)) would not follow from the "
+                           "polynomial identities")
+    from .c04 import kernel_obligations as _kob, emit as _emit
+    from .. import kernel as _K
+    Wk, agg, nk = _kob(chk, repo, _K.quick_schemas())
+    agg5 = {("C05.kernel", t_): v_ for (r_, t_), v_ in agg.items() if r_ in ("C04.equation", "C04.kernel", "C04.zero-filter")}
+    _emit(chk, Wk, agg5)
+    chk.floor("C05.kernel", nk, 700, "schemas folded and analysed")
     chk.rule("C05.pow-domain", "ZFilter.__pow__: a path computing self.numpoly ** other or self.denpoly ** other is reached "
                                "only when other >= 0 or that polynomial has fewer than two terms (decided over all truth "
                                "assignments of the guard atoms)")
